@@ -409,6 +409,57 @@ let cmd_itg (args : string list) : string =
      | _ -> "err undecodable")
   | _ -> "err badcmd"
 
+(* ---------- rich text: one local call on a text against its model and its sequential specification (Crdt/RichText.v) ---------- *)
+(* items "c:k:d:X,..." with X = u<hex unit> | e<tok> | t<tok> | f<key tok>.<value tok> | g ; "_" = none
+   op  "IW/idx/u-u-u/k=v;k=v" | "F/idx/len/k=v;k=v" | "I/idx/u-u" | "R/idx/len" | "E/idx/shared/v"
+   diff "u<hex>{k=v;k=v},e<tok>{...}" *)
+let rt_parse_attrs (s : string) : (n * n) list =
+  if s = "" || s = "_" then [] else List.map (fun kv -> match String.split_on_char '=' kv with [k; v] -> (n_of_hex k, n_of_hex v) | _ -> failwith "attr") (String.split_on_char ';' s)
+let rt_parse_items (s : string) : rt_item list =
+  if s = "_" then [] else List.map (fun t -> match String.split_on_char ':' t with
+    | [c; k; d; x] ->
+      let cont = (match x.[0] with
+        | 'u' -> RChar (n_of_hex (String.sub x 1 (String.length x - 1)))
+        | 'e' -> REmbed (n_of_hex (String.sub x 1 (String.length x - 1)))
+        | 't' -> RType (n_of_hex (String.sub x 1 (String.length x - 1)))
+        | 'f' -> (match String.split_on_char '.' (String.sub x 1 (String.length x - 1)) with [a; b] -> RFormat (n_of_hex a, n_of_hex b) | _ -> failwith "format")
+        | _ -> RGone) in
+      { rt_id = { cl = n_of_hex c; ck = n_of_hex k }; rt_del = (d = "1"); rt_cont = cont }
+    | _ -> failwith "item") (String.split_on_char ',' s)
+let rt_parse_units (s : string) : n list = if s = "" || s = "_" then [] else List.map n_of_hex (String.split_on_char '-' s)
+let rt_parse_op (s : string) : rt_op =
+  match String.split_on_char '/' s with
+  | ["IW"; i; us; at] -> RtInsertWith (nat_of_int (int_of_string i), rt_parse_units us, rt_parse_attrs at, [], [])
+  | ["F"; i; n; at] -> RtFormat (nat_of_int (int_of_string i), nat_of_int (int_of_string n), rt_parse_attrs at, [], [])
+  | ["I"; i; us] -> RtInsert (nat_of_int (int_of_string i), rt_parse_units us)
+  | ["R"; i; n] -> RtRemove (nat_of_int (int_of_string i), nat_of_int (int_of_string n))
+  | ["E"; i; sh; v] -> RtEmbed (nat_of_int (int_of_string i), sh = "1", n_of_hex v)
+  | _ -> failwith "op"
+let rt_parse_diff (s : string) : (elem * (n * n) list) list =
+  if s = "_" then [] else List.map (fun t ->
+    let i = String.index t '{' in
+    let e = String.sub t 0 i and at = String.sub t (i + 1) (String.length t - i - 2) in
+    ((if e.[0] = 'u' then EUnit (n_of_hex (String.sub e 1 (String.length e - 1))) else EEmb (n_of_hex (String.sub e 1 (String.length e - 1)))), rt_parse_attrs at)) (String.split_on_char ',' s)
+let cmd_rt (args : string list) : string =
+  match args with
+  | ["step"; before; after; op; client; clock; diff] ->
+    let (b, a, o, d) = (rt_parse_items before, rt_parse_items after, rt_parse_op op, rt_parse_diff diff) in
+    let (c, k0) = (n_of_hex client, n_of_hex clock) in
+    let rec n_of_nat (x : nat) : int = match x with O -> 0 | S y -> 1 + n_of_nat y in
+    let ids (i : nat) = { cl = c; ck = N.add k0 (n_of_int (n_of_nat i)) } in
+    let okp = rt_op_ok b o in
+    (match rt_apply_auto b a o ids with
+     | None -> "model-panics ok=" ^ (if okp then "1" else "0")
+     | Some m ->
+       let items = rt_items_eqb_gc m a in
+       let render_impl = relems_eqb (rt_render a) d in
+       let render_model = relems_eqb (rt_render m) d in
+       let spec = relems_eqb (rt_spec_apply (rt_render b) o) d in
+       if items && render_impl && render_model && (spec || not okp) && rt_wf b then "ok" ^ (if okp then " spec" else " nospec")
+       else "differs items=" ^ (if items then "1" else "0") ^ " dump-renders-to-diff=" ^ (if render_impl then "1" else "0") ^ " model-renders-to-diff=" ^ (if render_model then "1" else "0")
+            ^ " spec=" ^ (if spec then "1" else "0") ^ " op_ok=" ^ (if okp then "1" else "0") ^ " wf=" ^ (if rt_wf b then "1" else "0"))
+  | _ -> "err badcmd"
+
 (* ---------- codecs ---------- *)
 let print_idm (v : (n * ((n * n) * ((n list * any) option) list) list) list) : string =
   let pa = function None -> "?" | Some (nm, vl) -> rawhex nm ^ "=" ^ print_any vl in
@@ -724,6 +775,7 @@ let dispatch (line : string) : string =
   | "DFF" :: args -> cmd_dff args
   | "ADL" :: args -> cmd_adl args
   | "ITG" :: args -> cmd_itg args
+  | "RT" :: args -> cmd_rt args
   | "DEC" :: args -> cmd_dec args
   | "ENC" :: args -> cmd_enc args
   | ["PING"] -> "ok pong"
